@@ -36,6 +36,10 @@ pub enum Mode {
     /// E4: for the first `window` sampler calls the first base byte is 0, the
     /// sign bit is stuck at `sign` and the Bernoulli bytes are 0; then uniform.
     BiasedWindow { window: u64, sign: u8 },
+    /// E7: the first `bytes` bytes of output (however they are requested) are those of the stream
+    /// `prefix`, whatever this stream's own seed; then this stream's own uniform bytes. Two such
+    /// streams model generator outputs that agree on their first 32 / 64 bits only.
+    SharedPrefix { prefix: u64, bytes: u8 },
 }
 
 impl Mode {
@@ -47,6 +51,7 @@ impl Mode {
             Mode::TableAt { call, entry, delta } => json!({"kind": "E3", "call": call, "entry": entry, "delta": delta}),
             Mode::BiasedWindow { window, sign } => json!({"kind": "E4", "window": window, "sign": sign}),
             Mode::RejectRun { call, rounds } => json!({"kind": "E6", "call": call, "rounds": rounds}),
+            Mode::SharedPrefix { prefix, bytes } => json!({"kind": "E7", "prefix": prefix, "bytes": bytes}),
         }
     }
     pub fn from_json(v: &serde_json::Value) -> Option<Mode> {
@@ -58,6 +63,7 @@ impl Mode {
             "E3" => Mode::TableAt { call: u("call")?, entry: u("entry")? as u8, delta: i("delta")? as i8 },
             "E4" => Mode::BiasedWindow { window: u("window")?, sign: u("sign")? as u8 },
             "E6" => Mode::RejectRun { call: u("call")?, rounds: u("rounds")? },
+            "E7" => Mode::SharedPrefix { prefix: u("prefix")?, bytes: u("bytes")? as u8 },
             _ => return None,
         })
     }
@@ -68,6 +74,7 @@ impl Mode {
             Mode::TableAt { .. } => "E3",
             Mode::BiasedWindow { .. } => "E4",
             Mode::RejectRun { .. } => "E6",
+            Mode::SharedPrefix { .. } => "E7",
         }
     }
 }
@@ -191,13 +198,26 @@ pub struct SimStream {
     iter_buf: Vec<u8>,
     pending_tie: Option<(u64, u8, i8)>,
     pub what: &'static str,
+    /// E7: the stream's own generators, swapped in once `prefix_left` bytes have been emitted
+    own: Option<(Prng, Prng)>,
+    prefix_left: i64,
 }
 
 impl SimStream {
     pub fn new(seed: u64, mode: Mode, shared: Rc<RefCell<Shared>>, handle: Option<Rc<Handle>>, cap: u64) -> Self {
         let mut p = Prng::new(seed);
-        let junk = p.fork(0x6a756e6b);
+        let mut junk = p.fork(0x6a756e6b);
+        let mut own = None;
+        let mut prefix_left = 0i64;
+        if let Mode::SharedPrefix { prefix, bytes } = mode {
+            let mut q = Prng::new(prefix);
+            let qj = q.fork(0x6a756e6b);
+            own = Some((std::mem::replace(&mut p, q), std::mem::replace(&mut junk, qj)));
+            prefix_left = bytes as i64;
+        }
         SimStream {
+            own,
+            prefix_left,
             bytes: p,
             junk,
             mode,
@@ -209,6 +229,20 @@ impl SimStream {
             iter_buf: Vec::with_capacity(17),
             pending_tie: None,
             what: "sign exceeded its draw bound",
+        }
+    }
+
+    /// E7 accounting: `n` bytes of output are about to be produced
+    fn emitted(&mut self, n: i64) {
+        if self.own.is_some() {
+            if self.prefix_left <= 0 {
+                if let Some((b, j)) = self.own.take() {
+                    self.bytes = b;
+                    self.junk = j;
+                    *self.shared.borrow_mut().landed.entry("E7").or_insert(0) += 1;
+                }
+            }
+            self.prefix_left -= n;
         }
     }
 
@@ -239,6 +273,7 @@ impl SimStream {
         } else {
             3
         };
+        self.emitted(4);
         self.tick(phase);
         let iter = pos / 17;
         let off = (pos % 17) as usize;
@@ -249,7 +284,7 @@ impl SimStream {
         let uniform = self.bytes.byte();
         let mut out = uniform;
         match self.mode {
-            Mode::Uniform => {}
+            Mode::Uniform | Mode::SharedPrefix { .. } => {}
             Mode::BiasedWindow { window, sign } => {
                 if call < window {
                     out = match off {
@@ -327,6 +362,7 @@ impl SimStream {
     }
 
     fn raw_byte(&mut self, phase: u8) -> u8 {
+        self.emitted(1);
         self.tick(phase);
         let b = self.bytes.byte();
         if let Some(r) = self.record.as_mut() {
